@@ -119,9 +119,15 @@ func (y *yieldSource) Read(p []byte) (int, error) {
 
 // writerInstance drives a writer through ops with a yield before every API call and sink write.
 func writerInstance(c *model.Content, cfg gow.Config, out *[]byte) func(yield func()) {
+	return writerInstanceOpts(c, cfg.Options(), out)
+}
+
+// writerInstanceOpts takes the options value itself, so that several instances can be built from
+// one caller-owned *WriterOptions (which the library may read but must not turn into shared state).
+func writerInstanceOpts(c *model.Content, opts *mcap.WriterOptions, out *[]byte) func(yield func()) {
 	return func(yield func()) {
 		sink := &yieldSink{yield: yield}
-		w, err := mcap.NewWriter(sink, cfg.Options())
+		w, err := mcap.NewWriter(sink, opts)
 		if err != nil {
 			return
 		}
@@ -221,7 +227,36 @@ func c13InterleaveOn(nInst int, ws []*model.Content) explore.Body {
 	var soloRead string
 	readerInstance(solo[1], &soloRead)(func() {})
 	return func(x *explore.Ctx) *explore.Verdict {
-		combo := x.Choose("cfg", 3) // which instances run together
+		combo := x.Choose("cfg", 5) // which instances run together; 3 and 4: writers built from ONE options value (lz4, zstd)
+		if combo >= 3 {
+			cfg := cfgs[1]
+			if combo == 4 {
+				cfg = cfgs[3]
+			}
+			shared := cfg.Options()
+			outs := make([][]byte, nInst)
+			var bodies []func(yield func())
+			var what []string
+			for i := 0; i < nInst; i++ {
+				bodies = append(bodies, writerInstanceOpts(ws[i%len(ws)], shared, &outs[i]))
+				what = append(what, fmt.Sprintf("writer %d (%s, shared options value)", i%len(ws), cfg))
+			}
+			s := &coSched{x: x, hook: c13SchedHook}
+			s.run(bodies)
+			if c13SchedDone != nil {
+				c13SchedDone()
+			}
+			x.Ops += 6 * nInst
+			x.Note = func() any { return map[string]any{"instances": what, "schedule": x.Choices()} }
+			x.State = explore.Hash([]byte(fmt.Sprint(x.Choices())))
+			for i := 0; i < nInst; i++ {
+				want := gow.Write(ws[i%len(ws)], cfg, nil, nil).Bytes
+				if !bytes.Equal(outs[i], want) {
+					return vio("C13:writer-disturbed-by-concurrent-instance", "output of %s differs from its solo run when interleaved with %v", what[i], what)
+				}
+			}
+			return nil
+		}
 		outs := make([][]byte, nInst)
 		var rd string
 		var bodies []func(yield func())
@@ -419,7 +454,7 @@ func C13(r *chk.Run) {
 		c13MapOrderFn(r)
 		return
 	}
-	r.Rule("(a) map order: a binary built with an overlay that routes every map range of go/mcap (found with go/types, regenerated from the working tree) through a harness-controlled permutation; every permutation of every map range reached by workloads with 1-4 key maps, 2-4 and 20 channels (sparse chunks), deviation bound 2; output bytes must equal the identity-order run. (b) instance interleaving: 2 [3] instances (writers with different compressions, a validating lexer) under a cooperative scheduler with yield points before every API call and at every sink write / source read / attachment-source read; all interleavings with preemption bound 2 [3]; each instance's result must equal its solo run. (c) GOMAXPROCS in {1,2,4,16}: 45 configurations x 300 messages in a fresh subprocess each, digests equal. (d) supporting: 16 free-running goroutines with independent writers/readers under -race. (e) every history of up to 3 writers (zstd at 4 levels, lz4 at 3 levels, none) run one after another in ONE process, with and without reusing the caller's Header/Schema/Channel objects: each output must equal the digest the same calls give in a fresh process; distinct = distinct schedules / permutation vectors")
+	r.Rule("(a) map order: a binary built with an overlay that routes every map range of go/mcap (found with go/types, regenerated from the working tree) through a harness-controlled permutation; every permutation of every map range reached by workloads with 1-4 key maps, 2-4 and 70 channels (sparse chunks), deviation bound 2; output bytes must equal the identity-order run. (b) instance interleaving: 2 [3] instances (writers with different compressions, a validating lexer) under a cooperative scheduler with yield points before every API call and at every sink write / source read / attachment-source read; all interleavings with preemption bound 2 [3]; each instance's result must equal its solo run. (c) GOMAXPROCS in {1,2,4,16}: 45 configurations x 300 messages in a fresh subprocess each, digests equal. (d) supporting: 16 free-running goroutines with independent writers/readers under -race. (e) every history of up to 3 writers (zstd at 4 levels, lz4 at 3 levels, none) run one after another in ONE process, with and without reusing the caller's Header/Schema/Channel objects: each output must equal the digest the same calls give in a fresh process; distinct = distinct schedules / permutation vectors")
 	r.Assume("trusted: the map-range rewrite preserves semantics for any one fixed order; (d) is a different technique (dynamic race detection) used as supporting evidence only, as the cooperative scheduler's hand-offs would blind the detector")
 	if r.IsWorker() {
 		// shard workers of phases (b) and (e)
